@@ -81,10 +81,37 @@ func runC09(w *World, r *Report, tier string) {
 
 	// O2 writers
 	lib := w.LibFuncs()
+	// onResumedPath: the instruction lies on a path of Session.resume (helpers walked through) that reports a successful resumption
+	onResumedPath := func(at ssa.Instruction) bool {
+		rs := w.Func("xmpp.(*Session).resume")
+		toTrue := false
+		if err := walkPaths(entryLoc(rs), nil, nil, 100000, func(path []ssa.Instruction, end pathEnd) {
+			ret, ok := path[len(path)-1].(*ssa.Return)
+			if !ok || ret.Parent() != rs || len(ret.Results) != 1 {
+				return
+			}
+			if countOn(path, func(in ssa.Instruction) bool { return in == at }) == 0 {
+				return
+			}
+			if b, isC := boolConst(rres(path, ret)[0]); !isC || b {
+				toTrue = true
+			}
+		}); err != nil {
+			toTrue = true
+		}
+		return toTrue
+	}
 	for _, a := range w.fieldAccesses(fInbound, lib) {
 		switch a.Kind {
 		case "store":
 			cons := w.funcKey(a.Fn) + "#store:Inbound"
+			if st, isSt := a.Instr.(*ssa.Store); isSt && !isIncrementOf(a.Instr, fInbound) {
+				if k, isK := intConst(st.Val); isK && k == 0 {
+					// a reset to zero is what replacing the whole state does; it must not happen where a resumption succeeded
+					r.Check(!onResumedPath(a.Instr), "O2", cons, w.ipos(a.Instr), "the inbound counter is reset on a path that reports a successful resumption", "reset to zero, never on a path that reports a successful resumption")
+					continue
+				}
+			}
 			r.Check(w.ownerFn(a.Fn) == fn && isIncrementOf(a.Instr, fInbound), "O2", cons, w.ipos(a.Instr), "the inbound counter is written outside the receive loop's increment", "increment in recv")
 		case "addr":
 			// &s.SMState.Inbound — only as SMResume.H
@@ -118,8 +145,10 @@ func runC09(w *World, r *Report, tier string) {
 			case isZeroValue(v):
 				detail = "zero state"
 			case al != nil:
-				if _, setsInbound := fields["Inbound"]; setsInbound {
-					verdict = "bad"
+				if iv, setsInbound := fields["Inbound"]; setsInbound {
+					if k, isK := intConst(iv); !isK || k != 0 {
+						verdict = "bad"
+					}
 				}
 				detail = "fresh state literal without Inbound"
 			case w.ownerKey(a.Fn) == "xmpp.NewSession" && isParamOf(v, w.ownerFn(a.Fn)):
@@ -225,8 +254,16 @@ func runC09(w *World, r *Report, tier string) {
 				}
 				h, has := fields["H"]
 				if ts == "stanza.SMAnswer" {
-					names := fieldNames(fieldPath(h))
-					_, isLoad := h.(*ssa.UnOp)
+					// (built in a helper that receives the count: the argument of every caller)
+					names, isLoad := "", has
+					if has {
+						for _, hv := range originsAll(h) {
+							names = fieldNames(fieldPath(hv))
+							if _, ld := hv.(*ssa.UnOp); !ld || !strings.HasSuffix(names, "SMState.Inbound") {
+								isLoad = false
+							}
+						}
+					}
 					r.Check(has && isLoad && strings.HasSuffix(names, "SMState.Inbound"), "O3", cons, w.ipos(c), "the h of the acknowledgement answer is not a plain load of the session's inbound counter: "+describeOpt(w, h), "H = load "+names)
 				} else {
 					if !has {
